@@ -25,6 +25,18 @@ type twCfg struct {
 	Keys   int    `json:"keys"`
 	MaxL   int    `json:"max_len"`
 	Eager  bool   `json:"eager_feed"`
+	Unit   string `json:"time_unit,omitempty"` // "" = ms; "ss": the ts column holds seconds; "ns": nanoseconds
+}
+
+// twUnitScale converts a timestamp in ms to the value of the ts column.
+func twRowTS(c twCfg, ms int64) int64 {
+	switch c.Unit {
+	case "ss":
+		return ms / 1000
+	case "ns":
+		return ms * 1000000
+	}
+	return ms
 }
 
 // timestamp alphabet (ms): boundaries of 2s and 3s grids, +/-1ms jitter, a far-away value
@@ -41,7 +53,11 @@ func twSQL(c twCfg) string {
 	if c.Kind == "sliding" {
 		win = fmt.Sprintf("SlidingWindow('%dms','%dms')", c.SizeMs, c.Slide)
 	}
-	with := "TIMESTAMP='ts', TIMEUNIT='ms'"
+	unit := "ms"
+	if c.Unit != "" {
+		unit = c.Unit
+	}
+	with := "TIMESTAMP='ts', TIMEUNIT='" + unit + "'"
 	if c.OOOMs > 0 {
 		with += fmt.Sprintf(", MAXOUTOFORDERNESS='%dms'", c.OOOMs)
 	}
@@ -55,17 +71,21 @@ func twEvents(c twCfg, tsIdx []int, keyBits int) []ref.Event {
 		if c.Keys > 1 && keyBits>>uint(i)&1 == 1 {
 			k = "b"
 		}
-		evs = append(evs, ref.Event{ID: i + 1, Key: k, TS: twTimes[x], V: float64(int(1) << uint(i))})
+		ts := twTimes[x]
+		if c.Unit == "ss" {
+			ts = ts / 1000 * 1000 // the column holds whole seconds
+		}
+		evs = append(evs, ref.Event{ID: i + 1, Key: k, TS: ts, V: float64(int(1) << uint(i))})
 	}
 	// sentinel far ahead (but far below now+24h of the virtual clock): pushes the watermark past every window
 	evs = append(evs, ref.Event{ID: 99, Key: "zz", TS: 500000, V: 0})
 	return evs
 }
 
-func twFeed(evs []ref.Event) func(e *Env) {
+func twFeed(c twCfg, evs []ref.Event) func(e *Env) {
 	return func(e *Env) {
 		for _, ev := range evs {
-			e.Emit(Row{"id": ev.ID, "k": ev.Key, "ts": ev.TS, "v": ev.V})
+			e.Emit(Row{"id": ev.ID, "k": ev.Key, "ts": twRowTS(c, ev.TS), "v": ev.V})
 		}
 	}
 }
@@ -236,6 +256,9 @@ func twConfigs(kind, tier string) []twCfg {
 				out = append(out, twCfg{Kind: kind, SizeMs: 7000, OOOMs: ooo, Keys: 1, MaxL: maxL, Eager: eager})
 			}
 		}
+		for _, unit := range []string{"ss", "ns"} {
+			out = append(out, twCfg{Kind: kind, SizeMs: 2000, OOOMs: 1000, Keys: 1, MaxL: maxL, Eager: true, Unit: unit})
+		}
 		out = append(out, twCfg{Kind: kind, SizeMs: 2000, OOOMs: 2000, Keys: 2, MaxL: maxL - 1, Eager: false},
 			twCfg{Kind: kind, SizeMs: 2000, OOOMs: 0, Keys: 2, MaxL: maxL - 1, Eager: true})
 		return out
@@ -246,6 +269,9 @@ func twConfigs(kind, tier string) []twCfg {
 				out = append(out, twCfg{Kind: kind, SizeMs: ss[0], Slide: ss[1], OOOMs: ooo, Keys: 1, MaxL: maxL, Eager: eager})
 			}
 		}
+	}
+	for _, unit := range []string{"ss", "ns"} {
+		out = append(out, twCfg{Kind: kind, SizeMs: 4000, Slide: 2000, OOOMs: 2000, Keys: 1, MaxL: maxL, Eager: true, Unit: unit})
 	}
 	for _, eager := range []bool{false, true} {
 		out = append(out, twCfg{Kind: kind, SizeMs: 7000, Slide: 3500, OOOMs: 2000, Keys: 1, MaxL: maxL, Eager: eager}) // slide not dividing 24h
@@ -284,7 +310,7 @@ func twRunEnum(prop string, u fw.Unit, cfgs []twCfg) fw.Result {
 					continue
 				}
 				evs := twEvents(c, seq, kb<<1)
-				r := detExec(sql, detOpts{Eager: c.Eager, Horizon: 500 * vtime.Millisecond}, twFeed(evs))
+				r := detExec(sql, detOpts{Eager: c.Eager, Horizon: 500 * vtime.Millisecond}, twFeed(c, evs))
 				a.r.Evaluations++
 				a.r.States++
 				a.r.Transitions += int64(r.Steps)
@@ -449,7 +475,7 @@ func twPlan(prop, kind, tier string) []fw.Unit {
 func twDescribe(kind string) fw.Description {
 	return fw.Description{
 		Level: "model_checking",
-		Rule: "(a) bounded-exhaustive: all arrival sequences of length 1..L over a 10-value timestamp alphabet (window boundaries, +-1 ms, duplicates, an event earlier than the first one) x window sizes x MAXOUTOFORDERNESS x eager|lazy feed (x key assignments over 2 keys for L-1), each followed by a far sentinel, executed through streamsql.New/Execute/Emit on the real engine under the deterministic schedule with the virtual clock and compared with ref." + kind + " (accepted rows must be reported in exactly their interval(s), late-on-arrival rows may be, bounds/alignment/window_id/count/sum recomputed, nothing twice, nothing before the watermark); " +
+		Rule: "(a) bounded-exhaustive: all arrival sequences of length 1..L over a 10-value timestamp alphabet (window boundaries, +-1 ms, duplicates, an event earlier than the first one) x window sizes (incl. one that does not divide 24h) x TIMEUNIT ms|ss|ns x MAXOUTOFORDERNESS x eager|lazy feed (x key assignments over 2 keys for L-1), each followed by a far sentinel, executed through streamsql.New/Execute/Emit on the real engine under the deterministic schedule with the virtual clock and compared with ref." + kind + " (accepted rows must be reported in exactly their interval(s), late-on-arrival rows may be, bounds/alignment/window_id/count/sum recomputed, nothing twice, nothing before the watermark); " +
 			"(b) the window object itself (window.CreateWindow from rsql.Parse) driven by an ingest thread under the schedule explorer: all interleavings with the trigger goroutine and the watermark goroutine with <= bound deviations for fixed sequences; non-trivial = >=2 deliveries (a) / reached via >=1 deviation (b)",
 		Bounds:      map[string]any{"max_len": map[string]int{"quick": 4, "thorough": 5}, "timestamps_ms": twTimes, "sched_bound": map[string]int{"quick": 1, "thorough": 2}},
 		Assumptions: []string{"ALLOWEDLATENESS = 0 (late updates are C02's subject)", "event timestamps far below virtual now + 24h", "window output buffer never full inside the bounds"},
@@ -515,7 +541,7 @@ func twReplay(prop, kind string, v fw.Violation) (string, bool) {
 	out := ""
 	failed := false
 	for i := 0; i < 2; i++ {
-		r := detExec(twSQL(c), detOpts{Eager: c.Eager, Horizon: 500 * vtime.Millisecond}, twFeed(evs))
+		r := detExec(twSQL(c), detOpts{Eager: c.Eager, Horizon: 500 * vtime.Millisecond}, twFeed(c, evs))
 		ds, _ := twDeliveries(c, r.Batches)
 		k, what := twCompare(c, evs, ds)
 		out += fmt.Sprintf("run %d: status=%s deliveries=%s verdict=%s %s\n", i+1, r.Status, js(ds), k, what)
